@@ -4,6 +4,7 @@ import (
 	"errors"
 	"fmt"
 	"gopkg.in/yaml.v3"
+	"sort"
 	"strconv"
 )
 
@@ -201,5 +202,7 @@ func (y *Yaml) GetMapKeys() ([]string, error) {
 		keys = append(keys, k)
 
 	}
+	// map iteration order is random, callers generate code in the order of the returned keys
+	sort.Strings(keys)
 	return keys, nil
 }
